@@ -25,6 +25,14 @@ def generate(tier, rng):
         e.extra['shape'] = 'duplicate canonical names'
         e.extra['no_noise'] = True
         enums.append(e)
+    # the empty string is a name like any other
+    for j, pfx in enumerate((None, 'p:')):
+        e = ESpec(id='c03empty%d' % j, name='EnC03empty%d' % j, prefix=pfx, derives=list(derives), feats=['names', 'vnames'])
+        e.variants = [VSpec(ident='OnlyEmptySer', ser=['']), VSpec(ident='EmptyTs', ts=''), VSpec(ident='EmptyAndMore', ser=['', 'none']),
+                      VSpec(ident='EmptyTsLongSer', ts='', ser=['long-one'], kind='tuple', ftypes=['u8']), VSpec(ident='Plain')]
+        e.extra['shape'] = 'empty names'
+        e.extra['no_noise'] = True
+        enums.append(e)
     soup = strcorpus.build_soup(rng, tier, 'C03', derives=derives, feats=['names', 'vnames'], n=30 if tier == 'quick' else 300,
                                 prefix_pool=namecorpus.PREFIXES, with_default=False)
     for e in soup:
